@@ -211,6 +211,11 @@ let judge op a got =
   | "r2u" | "r2i" ->
       let (n, d) = reduce (z (arg 0), z (arg 1)) in
       let asis = conv_s hx (if op = "r2u" then rat_try_to_ubig n d else rat_try_to_ibig n d) in
+      (* the Relaxed form: stored pair (common factors of two removed), canonicalised by the conversion since 4757027 *)
+      let (n2, d2) = (let (a, b) = (z (arg 0), z (arg 1)) in if Zar.sign a = 0 then (zero, one) else
+          let k = min (Zar.trailing_zeros a) (Zar.trailing_zeros b) in (Zar.shift_right a k, Zar.shift_right b k)) in
+      let asis2 = conv_s hx (if op = "r2u" then relaxed_try_to_ubig n2 d2 else relaxed_try_to_ibig n2 d2) in
+      let asis = if asis2 = asis then asis else "model-forms-differ" in
       expect_conv ~extra:(same_asis asis got) (conv_s hx (rat_to_int_spec (op = "r2u") n d)) got
   | "r2p" ->
       let (sg, w) = prim (arg 0) in
